@@ -9,7 +9,7 @@ from ..model import AnalysisError, FuncInfo, dotted
 from ..rules import bind, common
 from ..rules.match import (m_arrcall, m_binop, m_method, product_factors, strip_reshape)
 from ..symex import (T, Evaluator, array_fn, call_parts, const, func_name, getitem, is_const,
-                     match_vmap, mk, show, strip_wrappers, subterms, sym)
+                     match_vmap, mk, show, strip_wrappers, substitute, subterms, sym)
 
 ID = "C07"
 EXPLANATION = (
@@ -84,6 +84,12 @@ class Comb:
         self.where_root = None
 
 
+def norm_iter(t):
+    """loops over the same range are one iteration space: drop the loop identity from iteration terms"""
+    its = {x: mk("iter", x.args[0], 0) for x in subterms(t) if x.op == "iter" and x.args[1] != 0}
+    return substitute(t, its) if its else t
+
+
 def analyse_comb(ctx, fi: FuncInfo) -> Comb:
     p = ctx.p
     ev = Evaluator(p)
@@ -99,6 +105,12 @@ def analyse_comb(ctx, fi: FuncInfo) -> Comb:
         vm = match_vmap(t) if t.op == "call" else None
         if vm is not None and vm[0].op == "name" and vm[0].args[0].endswith(".searchsorted"):
             ss.append(("vmap", t))
+    # the comb tooth may be computed in one loop and used in a second pass over the collected indices: loops over the
+    # same range are the same iteration space
+    uniq = {}
+    for kind_, t_ in ss:
+        uniq.setdefault(norm_iter(t_).uid, (kind_, t_))
+    ss = list(uniq.values())
     if len(ss) != 1:
         c.problems.append(f"{len(ss)} searchsorted sites (expected 1)")
         return c
@@ -174,13 +186,14 @@ def analyse_comb(ctx, fi: FuncInfo) -> Comb:
         if e.kind == "store" and len(e.data[1]) == 1:
             var, (key,), val = e.data[0], e.data[1], e.data[2]
             v = live_arm(val)
-            if v.op == "getitem" and (v.args[1] is index_term or strip_wrappers(v.args[1]) is index_term):
+            if v.op == "getitem" and (v.args[1] is index_term or strip_wrappers(v.args[1]) is index_term or
+                                      norm_iter(strip_wrappers(v.args[1])) is norm_iter(index_term)):
                 c.gathers.append((f"{var}[{show(key, maxdepth=1)}]", show(strip_wrappers(v.args[0]), maxdepth=3),
                                   v.args[1]))
     R = ev.result(fr)
     if R.op == "tuple" and len(R.args) == 2:
         w_out = strip_wrappers(R.args[0])
-        if w_out.op == "getitem" and strip_wrappers(w_out.args[1]) is index_term:
+        if w_out.op == "getitem" and norm_iter(strip_wrappers(w_out.args[1])) is norm_iter(index_term):
             c.gathers.append(("return", show(strip_wrappers(w_out.args[0]), maxdepth=3), w_out.args[1]))
     c.events = ev.events
     c.ev = ev
@@ -265,9 +278,9 @@ def _copies(ctx, fi: FuncInfo, c: Comb):
             v = live_arm(e.data[2])
             if v.op == "getitem":
                 idx = strip_wrappers(v.args[1])
-                if idx is c.index_term:
+                if idx is c.index_term or norm_iter(idx) is norm_iter(c.index_term):
                     continue
-            if e.loops and not (v.op == "getitem" and strip_wrappers(v.args[1]) is c.index_term):
+            if e.loops and not (v.op == "getitem" and norm_iter(strip_wrappers(v.args[1])) is norm_iter(c.index_term)):
                 bad.append((e.line, show(v, maxdepth=2)[:60]))
                 continue
             if v.op == "getitem" and v.args[1].op == "const":
